@@ -150,9 +150,9 @@ fn exec<'i>(p: &Pg, s: St<'i>) -> ParseResult<St<'i>> {
 }
 const ALPHA: [&str; 6] = ["x", "y", "\u{e9}", "\u{4f60}", "\n", "\""];
 fn gen_pg(rng: &mut Rng, d: usize) -> Pg {
-    let leaf = d == 0 || rng.chance(1, 5);
-    if leaf { return if rng.chance(1, 6) { Pg::Any } else { Pg::M(ALPHA[rng.below(4) as usize].to_string()) }; }
-    match rng.weighted(&[6, 4, 3, 2, 3, 3, 1]) {
+    let leaf = d == 0 || rng.chance(1, 7);
+    if leaf { return if rng.chance(1, 4) { Pg::Any } else { Pg::M(ALPHA[rng.below(3) as usize].to_string()) }; }
+    match rng.weighted(&[9, 4, 3, 2, 4, 3, 1]) {
         0 => Pg::Rl(rng.below(3) as usize, Box::new(gen_pg(rng, d - 1))),
         1 => Pg::Seq((0..rng.range(2, 3)).map(|_| gen_pg(rng, d - 1)).collect()),
         2 => Pg::Alt((0..rng.range(2, 3)).map(|_| gen_pg(rng, d - 1)).collect()),
@@ -639,9 +639,10 @@ fn main() {
             let mut produced = 0u64; let mut tries = 0u64;
             while produced < count && tries < count * 30 {
                 tries += 1;
-                let pg = gen_pg(&mut rng, 4);
+                let pg = if rng.chance(1, 2) { Pg::Rep(Box::new(gen_pg(&mut rng, 4))) } else { gen_pg(&mut rng, 5) };
                 let ilen = rng.range(0, 7);
-                let input: String = (0..ilen).map(|_| ALPHA[rng.below(5) as usize]).collect();
+                let wide = rng.chance(1, 4);
+                let input: String = (0..ilen).map(|_| ALPHA[rng.below(if wide { 5 } else { 3 }) as usize]).collect();
                 let scripts = random_scripts(&mut rng, 2, 16);
                 if run_st_case(&mut out, 3, 2, &scripts, &input, &pg) { produced += 1; }
             }
